@@ -248,6 +248,12 @@ def _feeders(ctx, F):
             for c in b.calls():
                 if c.name in ('eq', 'ne') and 'FrameStatus' in (c.callee or ''):
                     active = True
+            # match / matches! on the status discriminant
+            if lib.variant_test_edges(b, 'Frame', 'status', 'FrameStatus', 'Active'):
+                active = True
+            for bb2, i, s in b.stmts():
+                if s['rv']['k'] == 'discr' and ('Frame', 'status') in Place(s['rv']['p']).field_owners():
+                    active = True
         if active:
             ctx.ok('GUARD-C08c', f, 'feeds %s and tests FrameStatus::Active' % ', '.join(x.split('::')[-1] for x in feeds))
         else:
